@@ -7,6 +7,9 @@ baseline = json.load(open('/root/.vp/BASELINE.json'))['cmd'] if os.path.exists('
 SIM = "deterministic simulation with fault injection (seeded schedules over real olric+memberlist+redcon+go-redis in one synctest bubble)"
 NOTE = "Trusts the simulator seams (simnet, simsync, fake clock) and that the mechanical source rewrite preserves olric's semantics; 1 P per run; sampling."
 claimed = {
+ "C11": dict(level="exploration", design="DESIGN.md §8 C11",
+   text="Seeded sequences of storage.Engine calls (Put, PutRaw, Delete, UpdateTTL, compaction steps, table export/import/drop into a second store, clock advances that release idle tables) on a forked kvstore with tiny tables, inside the simulator's fake clock; after every step lookups, Stats().Length, Range and Scan (page sizes, patterns) are compared with a reference map; short sequences over a small alphabet are sampled densely, long ones randomly.",
+   note="The store is single-threaded under the fragment lock, so the explored 'schedule' is the order of foreground calls, background steps and clock advances; the engine code is also exercised in-cluster by C01/C03/C12/C20.", technique=SIM + "; reference-map oracle over interleaved foreground/background engine steps"),
  "C05": dict(level="fault_enumeration", design="DESIGN.md §8 C05",
    text="The configuration x fault space is finite (172 points: all (R,W,RQ) with W,RQ<=R<=3, N in {R,R+1}, every number of RESP-unreachable backup owners, refused or black-holed; N x MemberCountQuorum x partition sizes) and is enumerated completely in every tier; seeds vary latencies, schedules and the entry path on top. Oracle: Put acknowledged iff reachable copies >= W with the write-quorum error otherwise, copies counted by DM.GETENTRY census; Get iff >= RQ copies; members below MemberCountQuorum answer every RESP request and NewDMap with the cluster-quorum error and apply nothing.",
    note=NOTE + " 'Unreachable' = RESP-class link fault between the primary owner and a backup while gossip keeps flowing.", technique=SIM + "; complete enumeration of the quorum/fault configuration space"),
